@@ -249,6 +249,15 @@ func checkInsc(ctx *pbt.Ctx, c Insc) error {
 		}
 	}
 	ctx.Labelf("items:%d", len(c.Items))
+	if hasMarker(c.PrefixHash) {
+		ctx.Label("marker:envelope-start-in-key-hash")
+	}
+	for _, w := range wants {
+		if hasMarker(w.ct) || hasMarker(w.data) {
+			ctx.Label("marker:envelope-start-in-content")
+			break
+		}
+	}
 	if c.Shared && len(c.Items) > 1 {
 		if c.Cap > 25 {
 			ctx.Label("shared-prefix:spare-capacity")
@@ -266,11 +275,24 @@ func genBlob(t *rapid.T, n int, label string) Blob {
 	if n == 0 {
 		return Blob{}
 	}
+	if rapid.IntRange(0, 5).Draw(t, label+"_marked") == 0 {
+		// the first bytes (all of them up to 40) are drawn bytes carrying one of the format's own markers
+		m := n
+		if m > 40 {
+			m = 40
+		}
+		return Blob{Len: n, Pat: withMarker(t, m, label)}
+	}
 	return Blob{Len: n, Pat: rapid.SliceOfN(rapid.Byte(), 1, 16).Draw(t, label)}
 }
 
+// hasMarker reports whether b contains the envelope start or a complete small inscription.
+func hasMarker(b []byte) bool {
+	return bytes.Contains(b, formatMarkers[0])
+}
+
 func genInsc(t *rapid.T) Insc {
-	c := Insc{PrefixHash: gen.Bytes(t, 20, "hash"), Shared: rapid.Bool().Draw(t, "shared"),
+	c := Insc{PrefixHash: genFree(t, 20, "hash"), Shared: rapid.Bool().Draw(t, "shared"),
 		Cap: rapid.SampledFrom([]int{25, 26, 32, 48, 64, 128, 4096}).Draw(t, "cap"),
 		Pre: rapid.SampledFrom([]int{0, 0, 0, 1, 3}).Draw(t, "pre")}
 	huge := rapid.IntRange(0, 49).Draw(t, "huge") == 0
@@ -310,7 +332,8 @@ func TestInscribe(t *testing.T) {
 		Gen:   genInsc,
 		Check: checkInsc,
 		EnumDesc: "single inscriptions for every (content type length, data length) pair over {0,1,75,76,255,256,65535,65536} plus data of 100 kB and 1 MiB, " +
-			"and every pair of tiny inscriptions (data 0..3 bytes) sharing one prefix object of capacity 25/48/64/4096",
+			"and every pair of tiny inscriptions (data 0..3 bytes) sharing one prefix object of capacity 25/48/64/4096; " +
+			"every format marker (envelope start, ord push, OP_ENDIF, OP_RETURN, a complete small inscription, P2PKH frame, PUSHDATA opcodes ...) at every offset of the key hash and as content type, data and OP_RETURN arguments",
 		Enum: func(tier string, yield func(Insc)) {
 			h := make([]byte, 20)
 			for i := range h {
@@ -320,6 +343,17 @@ func TestInscribe(t *testing.T) {
 				for _, dl := range append(append([]int{}, enumLens...), 100000, 1<<20) {
 					yield(Insc{PrefixHash: h, Cap: 25, Items: []Item{{CT: Blob{cl, pbt.Hex("t/x")}, Data: Blob{dl, pbt.Hex{1, 2, 3, 5, 7}}}}})
 				}
+			}
+			// every marker at every offset of the key hash, and as content type / data / OP_RETURN argument
+			for _, m := range formatMarkers {
+				for at := 0; at+len(m) <= 20; at++ {
+					hm := append([]byte{}, h...)
+					copy(hm[at:], m)
+					yield(Insc{PrefixHash: hm, Cap: 25, Items: []Item{{CT: Blob{3, pbt.Hex("t/x")}, Data: Blob{len(m), pbt.Hex(m)}}}})
+				}
+				yield(Insc{PrefixHash: h, Cap: 25, Items: []Item{
+					{CT: Blob{len(m), pbt.Hex(m)}, Data: Blob{len(m), pbt.Hex(m)}},
+					{CT: Blob{3, pbt.Hex("t/x")}, Data: Blob{2, pbt.Hex{7, 8}}, OpReturn: []Blob{{len(m), pbt.Hex(m)}, {len(m), pbt.Hex(m)}}}}})
 			}
 			for _, cp := range []int{25, 48, 64, 4096} {
 				for a := 0; a <= 3; a++ {
